@@ -27,7 +27,7 @@ from ..vloop import Horizon, VLoop
 from .c19 import CountingLoader
 
 ID = 'C07'
-MEDIA = ('deepcopy', 'pickle', 'yaml')
+MEDIA = ('pickle', 'deepcopy', 'yaml')
 LOADERS = ('default', 'custom')
 
 
@@ -145,7 +145,7 @@ def observables(proc: Any) -> Dict[str, Any]:
     }
     if hasattr(proc, 'ctx'):
         obs['ctx'] = canon(dict(proc.ctx.__dict__))
-    if hasattr(proc, '_trace'):
+    if '_trace' in (type(proc)._auto_persist or ()):
         obs['trace'] = list(proc._trace)
     if proc.has_terminated():
         state = proc.state
@@ -303,6 +303,9 @@ def program_cases(tier: str) -> List[tuple]:
             cases.append(('P', p, j))
     for j in range(len(WC_INPUTS)):
         cases.append(('W', None, j))
+    from . import c08
+    for unit in c08.outlines_b(tier):
+        cases.append(('O', unit, 0))
     return cases
 
 
@@ -312,7 +315,7 @@ def check_case(case: tuple, media: Tuple[str, ...], full: bool) -> Dict[str, Any
     if kind == 'P':
         cls = programs.make_class(program, InBase)
         inputs = INPUTS[j]
-    else:
+    elif kind == 'W':
         cls = WcBase
         inputs = WC_INPUTS[j]
 
@@ -324,8 +327,11 @@ def check_case(case: tuple, media: Tuple[str, ...], full: bool) -> Dict[str, Any
                                                'loader': loader_mode, 'pause_at': pause_at, 'ctx_loader': ctx_loader}})
 
     first = True
-    for medium in media:
-        for loader_mode in LOADERS:
+    if kind == 'O':
+        return check_outline(program, media, out, add)
+    for mi, medium in enumerate(media):
+        # the order of the two loaders alternates: what one save leaves behind must not leak into the next
+        for loader_mode in (LOADERS if mi % 2 else LOADERS[::-1]):
             if not full and loader_mode == 'custom' and medium != 'pickle':
                 continue
             world, ticks = run_and_snapshot(cls, inputs, None, medium, loader_mode, kind == 'P')
@@ -342,6 +348,41 @@ def check_case(case: tuple, media: Tuple[str, ...], full: bool) -> Dict[str, Any
                     out['paused_snapshots'] += sum(1 for s in w2.snaps if s[0] == 'paused')
                     add(verify(w2, False), medium, loader_mode, pause_at, False)
             first = False
+    out['violations'] = out['violations'][:12]
+    return out
+
+
+def check_outline(unit: tuple, media: Tuple[str, ...], out: Dict[str, Any], add: Any) -> Dict[str, Any]:
+    """A WorkChain built from an outline of the C08/C09 family: every decision sequence, a snapshot at every state entry."""
+    from .. import explore
+    from . import c08, c09
+    named = c09.name_ast(unit, c09.Names())
+    klass, whiles = c08.build_wc(named)
+    first = [True]
+
+    def run(chooser: Any) -> Any:
+        for medium in (media if first[0] else media[:1]):
+            known: List[Any] = []
+            prev, c08.ENV = c08.ENV, c08.Decisions(known, chooser if medium == media[0] else None, whiles)
+            if medium != media[0]:
+                c08.ENV.known = list(decisions)
+            try:
+                world, _ = run_and_snapshot(klass, None, None, medium, 'default', True)
+            finally:
+                c08.ENV = prev
+            decisions = list(known) if medium == media[0] else decisions
+            out['n'] += 1
+            out['snapshots'] += len(world.snaps)
+            found = verify(world, False)
+            for clause, feats, detail in found:
+                feats['kinds'] = c09.kinds_in(named)
+                if isinstance(detail, dict):
+                    detail = dict(detail, outline=c09.shape(named))
+            add(found, medium, 'default', None, False)
+        first[0] = False
+        return explore.ExecResult()
+
+    explore.dfs(run, {})
     out['violations'] = out['violations'][:12]
     return out
 
@@ -381,11 +422,11 @@ def run_check(tier: str, seed: int, workers: Any) -> Dict[str, Any]:
         'transitions': total['n'], 'traces_validated_against_impl': total['n'], 'programs': len(cases),
         'rule': 'generated Process programs (sync/async steps, Continue with arguments, Wait with msg/data, outputs, status; '
                 'finished / unsuccessful / killed / excepted) x 3 input dictionaries (none, declared, nested + dynamic) and a '
-                'WorkChain with if/elif/else, while and ctx x 3 inputs; run under the default schedule and with one pause '
+                'WorkChain with if/elif/else, while and ctx x 3 inputs, and every WorkChain outline of the C08 family x every decision sequence; run under the default schedule and with one pause '
                 'before every tick; a bundle at construction, at every state entry, when paused and at the end x media '
                 '{deepcopy, pickle, yaml} x loader {default, custom in the save context (with and without it in the load '
                 'context)}; evaluations = snapshots round-tripped, non-trivial = snapshots taken while paused',
-        'samples': [{'program': programs.describe(cases[0][1]), 'inputs': repr(INPUTS[cases[0][2]]), 'media': list(MEDIA)}],
+        'samples': [{'program': programs.describe(cases[0][1]) if cases[0][0] == 'P' else repr(cases[0][1]), 'inputs': repr(INPUTS[cases[0][2]]), 'media': list(MEDIA)}],
         'exhaustive': True,
     }
     return {'violations': violations, 'coverage': coverage, 'errors': [], 'level': 'model_checking',
